@@ -15,6 +15,7 @@ import (
 	"io"
 	"runtime/debug"
 	"sort"
+	"sync/atomic"
 	"time"
 
 	chunker "github.com/ipfs/boxo/chunker"
@@ -35,10 +36,34 @@ import (
 
 func main() { vlib.Run("C09", run) }
 
+// progress counts block requests reaching the DAG service (see world.do).
+var progress atomic.Int64
+
+type countingDAG struct{ ipld.DAGService }
+
+func (c countingDAG) Get(ctx context.Context, k cid.Cid) (ipld.Node, error) {
+	progress.Add(1)
+	return c.DAGService.Get(ctx, k)
+}
+
+func (c countingDAG) GetMany(ctx context.Context, ks []cid.Cid) <-chan *ipld.NodeOption {
+	progress.Add(1)
+	in := c.DAGService.GetMany(ctx, ks)
+	out := make(chan *ipld.NodeOption, len(ks))
+	go func() {
+		defer close(out)
+		for o := range in {
+			progress.Add(1)
+			out <- o
+		}
+	}()
+	return out
+}
+
 func run(c *vlib.Ctx) {
 	c.Rule("histories of 6-30 ops {Read(buf 0..2x chunk, sometimes > file), CtxReadFull, Seek(target in [-size-2, size+66] via SeekStart/SeekCurrent/SeekEnd, rare invalid whence), WriteTo} on a DagReader over (a) importer-built files: balanced|trickle x width 2..8 (sometimes 174) x size-N/rabin chunker x raw|dag-pb leaves x CID v0/v1/blake2b, length 0 .. 256 KiB quick / 4 MiB thorough incl. chunk and width^depth boundaries +-1; (b) DAGs produced by DagModifier sessions (overwrite, append, sparse extension, truncation); distinct = FNV of config + op list; non-trivial = DAG depth >= 2 and a Seek that lands strictly inside the leaf that is currently partially consumed")
-	c.Cases("importer", c.N(2600, 30000), func(k *vlib.Case) { oneCase(k, false) })
-	c.Cases("modifier-dag", c.N(900, 10000), func(k *vlib.Case) { oneCase(k, true) })
+	c.Cases("importer", c.N(2200, 30000), func(k *vlib.Case) { oneCase(k, false) })
+	c.Cases("modifier-dag", c.N(800, 10000), func(k *vlib.Case) { oneCase(k, true) })
 }
 
 var prefixes = []struct {
@@ -110,8 +135,8 @@ func buildImporter(k *vlib.Case, ctx context.Context, dserv ipld.DAGService) (ip
 		width = help.DefaultLinksPerBlock
 	}
 	chunk := vlib.Pick(r, []int{1, 2, 3, 7, 16, 31, 64, 100, 256, 1000, 4096, 65536, 262144})
-	if max/chunk > 6000 { // keep the number of blocks bounded
-		max = chunk * 6000
+	if max/chunk > 2500 { // keep the number of blocks bounded
+		max = chunk * 2500
 	}
 	n := pickLen(r, chunk, width, max)
 	spec := fmt.Sprintf("size-%d", chunk)
@@ -256,7 +281,7 @@ func oneCase(k *vlib.Case, fromModifier bool) {
 	r := k.R
 	ctx, cancel := context.WithCancel(context.Background())
 	defer cancel()
-	dserv := mdagmock.Mock()
+	var dserv ipld.DAGService = countingDAG{mdagmock.Mock()}
 	var root ipld.Node
 	var content []byte
 	var chunk int
@@ -326,9 +351,16 @@ type obs struct {
 
 func (o obs) bad() bool { return o.hung || o.pan != nil }
 
+// do runs one reader call under recover and a progress-based hang monitor: the
+// call is declared hung only when it has not returned AND the DAG service saw
+// no block request for 30 s (a reader that is merely slow on a loaded machine
+// keeps fetching blocks; a walker that spins does not). vlib.Guard then attaches
+// the two goroutine dumps and aborts the batch.
 func (w *world) do(op string, fn func(o *obs)) obs {
 	o := new(obs)
-	ok := vlib.Guard(w.k, op, 10*time.Second, func() {
+	done := make(chan struct{})
+	go func() {
+		defer close(done)
 		defer func() {
 			if r := recover(); r != nil {
 				o.pan = r
@@ -336,9 +368,28 @@ func (w *world) do(op string, fn func(o *obs)) obs {
 			}
 		}()
 		fn(o)
-	})
-	if !ok {
-		return obs{hung: true}
+	}()
+	tick := time.NewTicker(2 * time.Second)
+	defer tick.Stop()
+	last, idle := progress.Load(), 0
+wait:
+	for {
+		select {
+		case <-done:
+			break wait
+		case <-tick.C:
+			if p := progress.Load(); p != last {
+				last, idle = p, 0
+				w.k.C.Count("slow_op_polls_with_progress", 1)
+				continue
+			}
+			if idle++; idle >= 15 {
+				if !vlib.Guard(w.k, op, time.Second, func() { <-done }) {
+					return obs{hung: true}
+				}
+				break wait
+			}
+		}
 	}
 	if o.pan != nil {
 		st := o.stack
